@@ -910,6 +910,36 @@ def avoiding_path(g, srcs, dsts, avoid, exc=False, strict=True):
     return fpath(g, list(srcs), set(dsts), set(avoid), exc=exc, strict=strict)
 
 
+def marker_locals(g) -> List[str]:
+    """Locals that are assigned a constant / module-level marker at least once and are tested (bare, or compared with a constant /
+    marker): the generalisation of a boolean flag (`returned = _NOT_RETURNED ... if returned is not _NOT_RETURNED:`)."""
+    stores = {}
+    local = set()
+    for n in g.nodes:
+        if n.ast is None:
+            continue
+        for x in ast.walk(n.ast):
+            if isinstance(x, ast.Name) and isinstance(x.ctx, ast.Store):
+                local.add(x.id)
+    for n in g.nodes:
+        if n.kind == "stmt" and n.ast is not None:
+            for t, v in targets_values(n.ast):
+                if isinstance(t, ast.Name) and v is not None and (isinstance(v, ast.Constant) or (isinstance(v, (ast.Name, ast.Attribute)) and dotted(v)
+                                                                                                  and dotted(v).split(".")[0] not in local)):
+                    stores[t.id] = True
+    tested = set()
+    for n in g.nodes:
+        if n.kind == "test" and n.ast is not None:
+            e = n.ast
+            if isinstance(e, ast.Name):
+                tested.add(e.id)
+            elif isinstance(e, ast.Compare) and len(e.ops) == 1 and isinstance(e.ops[0], (ast.Is, ast.IsNot, ast.Eq, ast.NotEq)):
+                for x in (e.left, e.comparators[0]):
+                    if isinstance(x, ast.Name):
+                        tested.add(x.id)
+    return sorted(set(stores) & tested)
+
+
 def bool_locals(g) -> List[str]:
     """Locals of the function that are only ever assigned the constants True / False."""
     vals: Dict[str, bool] = {}
@@ -941,19 +971,58 @@ def fpath(g, srcs, dsts, avoid=(), exc: bool = False, strict: bool = True, throu
     agrees with the value the flag was last assigned on this very path.
     ``through``: when given, a destination only counts once the path has visited one of these nodes
     (the flag values are carried across, unlike two separate searches)."""
-    flags = bool_locals(g)
+    bools = set(bool_locals(g))
+    flags = sorted(bools | set(marker_locals(g)))
     idx = {f: i for i, f in enumerate(flags)}
     avoid, dsts = set(avoid), set(dsts)
     through = set(through) if through is not None else None
     start_val = tuple([None] * len(flags)) + (through is None,)
+    local = {x.id for n in g.nodes if n.ast is not None for x in ast.walk(n.ast) if isinstance(x, ast.Name) and isinstance(x.ctx, ast.Store)}
+
+    def absv(v):
+        """True/False, ("k", const), ("n", marker name), "OTHER"; None = unknown"""
+        if isinstance(v, ast.Constant):
+            return v.value if isinstance(v.value, bool) else ("k", v.value)
+        if isinstance(v, (ast.Name, ast.Attribute)) and dotted(v) and dotted(v).split(".")[0] not in local:
+            return ("n", dotted(v).split(".")[-1])
+        return "OTHER"
 
     def step_val(nid, val):
         n = g.node(nid)
         if n.kind == "stmt" and flags:
             for t, v in targets_values(n.ast):
-                if isinstance(t, ast.Name) and t.id in idx and isinstance(v, ast.Constant):
-                    val = val[:idx[t.id]] + (bool(v.value),) + val[idx[t.id] + 1:]
+                if isinstance(t, ast.Name) and t.id in idx:
+                    val = val[:idx[t.id]] + ((absv(v) if v is not None else "OTHER"),) + val[idx[t.id] + 1:]
+        elif n.kind == "handler" and n.ast.name in idx:
+            val = val[:idx[n.ast.name]] + ("OTHER",) + val[idx[n.ast.name] + 1:]
         return val
+
+    def decide(e, val):
+        """outcome of an atomic test under the tracked values, or None"""
+        def truth(c):
+            if c is True or c is False:
+                return c
+            if isinstance(c, tuple):
+                return bool(c[1]) if c[0] == "k" else True
+            return None
+        if isinstance(e, ast.Name) and e.id in idx:
+            return truth(val[idx[e.id]])
+        if isinstance(e, ast.Compare) and len(e.ops) == 1 and isinstance(e.ops[0], (ast.Is, ast.IsNot, ast.Eq, ast.NotEq)):
+            l, r = e.left, e.comparators[0]
+            if isinstance(r, ast.Name) and r.id in idx and not (isinstance(l, ast.Name) and l.id in idx):
+                l, r = r, l
+            if isinstance(l, ast.Name) and l.id in idx:
+                c, k = val[idx[l.id]], absv(r)
+                if c is None or k == "OTHER":
+                    return None
+                if c == "OTHER":
+                    same = False if (isinstance(k, tuple) and k[0] == "n") else None    # an ordinary value is never a private marker
+                else:
+                    same = (c == k)
+                if same is None:
+                    return None
+                return same if isinstance(e.ops[0], (ast.Is, ast.Eq)) else not same
+        return None
 
     prev: Dict[Tuple[int, tuple], Optional[Tuple[int, tuple]]] = {}
     dq = deque()
@@ -974,11 +1043,12 @@ def fpath(g, srcs, dsts, avoid=(), exc: bool = False, strict: bool = True, throu
             if not exc and l == "exc":
                 continue
             nv = out_val
-            if na.kind == "test" and isinstance(na.ast, ast.Name) and na.ast.id in idx and l in ("T", "F"):
-                cur = out_val[idx[na.ast.id]]
-                if cur is not None and cur != (l == "T"):
+            if na.kind == "test" and l in ("T", "F") and flags:
+                d_ = decide(na.ast, out_val)
+                if d_ is not None and d_ != (l == "T"):
                     continue
-                nv = out_val[:idx[na.ast.id]] + ((l == "T"),) + out_val[idx[na.ast.id] + 1:]
+                if d_ is None and isinstance(na.ast, ast.Name) and na.ast.id in idx and na.ast.id in bools:
+                    nv = out_val[:idx[na.ast.id]] + ((l == "T"),) + out_val[idx[na.ast.id] + 1:]
             if through is not None and b in through:
                 nv = nv[:-1] + (True,)
             if b in dsts and nv[-1]:
@@ -1865,12 +1935,14 @@ class ICModel:
         self.p_result, self.p_gen, self.p_status, self.p_context = ps[:4]
         mod = ctx.mod(DEFER)
         self.mod = mod
-        # cell list W: local bound to a list literal of constants
+        self.local_names = set(ps) | {x.id for x in ast.walk(self.f) if isinstance(x, ast.Name) and isinstance(x.ctx, ast.Store)}
+        # cell list W: local bound to a list literal of constants / module-level marker objects
         self.cells: Dict[str, List[int]] = {}
         for n in g.nodes:
             if n.kind == "stmt" and g.reachable(n.id):
                 for t, v in targets_values(n.ast):
-                    if isinstance(t, ast.Name) and isinstance(v, ast.List) and v.elts and all(isinstance(e, ast.Constant) for e in v.elts):
+                    if isinstance(t, ast.Name) and isinstance(v, ast.List) and v.elts and all(isinstance(e, (ast.Constant, ast.Name)) for e in v.elts) \
+                            and all(not isinstance(e, ast.Name) or e.id not in self.local_names for e in v.elts):
                         self.cells.setdefault(t.id, []).append(n.id)
         # registrations: EVERY <x>.addBoth / addCallback / addErrback / addCallbacks(...) call.  Each yields one
         # Route per outcome: (outcome, callable expression or None for pass-through, extra positional args or None).
@@ -1918,10 +1990,10 @@ class ICModel:
         # resume sites: the generator is advanced
         self.resumes: List[int] = g.find(self._mentions_resume, kinds=("stmt", "test"))
         ctx.need(self.resumes, "generator resumption (gen.send / throwExceptionIntoGenerator) in _inlineCallbacks")
+        self._eff: Dict[str, Set[Tuple[object, bool]]] = {}
         changers = list(self.regs) + ([n.id for n in g.nodes if n.kind == "stmt" and g.reachable(n.id) and self.cell_store(n.ast) is not None] if W else [])
         self.cell_aliases: Set[str] = value_aliases(g, lambda v: bool(W) and sub0(v, W, 0), changers) if W else set()
-        self.cell_tests: List[int] = [n.id for n in g.nodes if n.kind == "test" and g.reachable(n.id) and W and
-                                      (sub0(n.ast, W, 0) or (isinstance(n.ast, ast.Name) and n.ast.id in self.cell_aliases))]
+        self.cell_tests: List[int] = [n.id for n in g.nodes if n.kind == "test" and g.reachable(n.id) and W and self.mentions_cell(n.ast)]
         self.states: Dict[int, Set[Tuple]] = {}
         self._run()
 
@@ -1939,12 +2011,106 @@ class ICModel:
             return True
         return isinstance(x, ast.Attribute) and x.attr == "throwExceptionIntoGenerator"
 
-    def cell_store(self, st) -> Optional[object]:
-        """constant stored into W[0] by this statement ('?' when not a constant), else None"""
+    # -- abstract cell values: True / False / ("k", None) / ("n", <module-level marker name>) / "OUT" (anything else) / None = unknown
+    @staticmethod
+    def absval(v, locals_) -> object:
+        if isinstance(v, ast.Constant):
+            return v.value if isinstance(v.value, bool) else ("k", v.value)
+        if isinstance(v, (ast.Name, ast.Attribute)) and dotted(v) and dotted(v).split(".")[0] not in locals_:
+            return ("n", dotted(v).split(".")[-1])
+        return "OUT"
+
+    def cell_store(self, st, W=None, locals_=None) -> Optional[object]:
+        """abstract value stored into W[0] by this statement, else None (wrapped in a 1-tuple to tell 'no store' from unknown)"""
+        W = W or self.W
         for t, v in targets_values(st):
-            if self.W and sub0(t, self.W, 0):
-                return v.value if isinstance(v, ast.Constant) and isinstance(v.value, bool) else "?"
+            if W and sub0(t, W, 0):
+                return (self.absval(v, locals_ if locals_ is not None else self.local_names) if v is not None else "OUT",)
         return None
+
+    @staticmethod
+    def cell_test(e, c, is_read, locals_) -> Optional[bool]:
+        """outcome of atomic test e when the cell holds abstract value c (None: not decided / not a test of the cell)"""
+        def truth(c):
+            if c is True or c is False:
+                return c
+            if isinstance(c, tuple):
+                return bool(c[1]) if c[0] == "k" else True
+            return None
+        if is_read(e):
+            return truth(c)
+        if isinstance(e, ast.Compare) and len(e.ops) == 1 and isinstance(e.ops[0], (ast.Is, ast.IsNot, ast.Eq, ast.NotEq)):
+            l, r = e.left, e.comparators[0]
+            other = r if is_read(l) else (l if is_read(r) else None)
+            if other is None or c is None:
+                return None
+            k = ICModel.absval(other, locals_)
+            if k == "OUT":
+                return None
+            if c == "OUT":
+                same = False if isinstance(k, tuple) and k[0] == "n" else None     # an outcome is never one of the private markers
+            else:
+                same = (c == k)
+            if same is None:
+                return None
+            return same if isinstance(e.ops[0], (ast.Is, ast.Eq)) else not same
+        return None
+
+    def is_cell_read(self, e) -> bool:
+        return bool(self.W) and (sub0(e, self.W, 0) or (isinstance(e, ast.Name) and e.id in self.cell_aliases))
+
+    def mentions_cell(self, e) -> bool:
+        return self.is_cell_read(e) or (isinstance(e, ast.Compare) and len(e.ops) == 1 and (self.is_cell_read(e.left) or self.is_cell_read(e.comparators[0])))
+
+    def helper_effect(self, c) -> Set[Tuple[object, bool]]:
+        """what the registered helper(s) do when they run with the cell holding c: {(cell value afterwards, re-entered _inlineCallbacks?)}"""
+        key = repr(c)
+        if key in self._eff:
+            return self._eff[key]
+        out: Set[Tuple[object, bool]] = set()
+        for name, (H, k) in self.helpers.items():
+            hp = params(H)
+            if len(hp) <= k:
+                continue
+            hg = self.ctx.cfg(H)
+            Wa = aliases(H, hp[k])
+            hloc = set(hp) | {x.id for x in ast.walk(H) if isinstance(x, ast.Name) and isinstance(x.ctx, ast.Store)}
+            reads = lambda e: any(sub0(e, w, 0) for w in Wa)
+            writers = [n.id for n in hg.nodes if n.kind == "stmt" and hg.reachable(n.id) and any(reads(t) for t, _ in targets_values(n.ast))] + \
+                call_nodes(hg, lambda c_: is_name(c_.func, "_inlineCallbacks"))
+            temps = value_aliases(hg, reads, writers)
+            is_read = lambda e: reads(e) or (isinstance(e, ast.Name) and e.id in temps)
+            seen = set()
+            stack = [(hg.entry, c, False)]
+            while stack:
+                n, v, called = stack.pop()
+                if (n, repr(v), called) in seen:
+                    continue
+                seen.add((n, repr(v), called))
+                node = hg.node(n)
+                if n == hg.exit:
+                    out.add((v, called))
+                    continue
+                if n == hg.raise_exit:
+                    continue
+                labs = None
+                if node.kind == "stmt":
+                    for w in Wa:
+                        cs = self.cell_store(node.ast, W=w, locals_=hloc)
+                        if cs is not None:
+                            v = cs[0]
+                    if any(isinstance(x, ast.Call) and is_name(x.func, "_inlineCallbacks") for x in ast.walk(node.ast)):
+                        called = True
+                elif node.kind == "test":
+                    t = self.cell_test(node.ast, v, is_read, hloc)
+                    if t is not None:
+                        labs = "T" if t else "F"
+                for d, l in hg.succ[n]:
+                    if l == "exc" or (labs is not None and l in ("T", "F") and l != labs):
+                        continue
+                    stack.append((d, v, called))
+        self._eff[key] = out
+        return out
 
     # -- fixpoint -------------------------------------------------------------------------------
     def _transfer(self, nid: int, S: Set[Tuple]) -> Tuple[Set[Tuple], Set[Tuple]]:
@@ -1957,22 +2123,23 @@ class ICModel:
                 v0 = None
                 for t, v in targets_values(n.ast):
                     if is_name(t, self.W):
-                        e0 = v.elts[0]
-                        v0 = e0.value if isinstance(e0.value, bool) else None
+                        v0 = self.absval(v.elts[0], self.local_names)
+                        v0 = None if v0 == "OUT" else v0
                 out = {(v0, p, f) for (_, p, f) in S}
                 exc = out
             cs = self.cell_store(n.ast)
             if cs is not None:
-                out = {((None if cs == "?" else cs), p, f) for (_, p, f) in out}
+                out = {(cs[0], p, f) for (_, p, f) in out}
                 exc = out | set(S)
         if nid in self.regs:
             new = set()
             for (c, p, f) in out:
                 new.add((c, 1, f))            # registered, the Deferred has not fired yet
-                if c is True or c is None:
-                    new.add((False, 0, f))    # fired synchronously: helper took its "waiting" branch
-                else:
-                    new.add((c, 0, f))        # helper would re-enter _inlineCallbacks (reported by the rule)
+                effs = self.helper_effect(c) if self.helpers else set()
+                if not effs:
+                    new.add((c, 0, f))
+                for c2, called in effs:       # fired synchronously: the helper has run with the cell holding c
+                    new.add((c2, 0, f))       # (a helper that re-enters here is reported by the registration rule)
             exc = new | set(S)
             out = new
         if nid in self.fires:
@@ -1992,7 +2159,16 @@ class ICModel:
                 T = exc if l in ("exc", "raise") else out
                 if a in self.cell_tests and l in ("T", "F"):
                     want = (l == "T")
-                    T = {(want if c is None else c, p, f) for (c, p, f) in T if c is None or c is want}
+                    T2 = set()
+                    for (c, p, f) in T:
+                        t = self.cell_test(g.node(a).ast, c, self.is_cell_read, self.local_names)
+                        if t is None:
+                            # unknown value: a plain truthiness test pins it down, otherwise both edges are possible
+                            c2 = want if (c is None and self.is_cell_read(g.node(a).ast)) else c
+                            T2.add((c2, p, f))
+                        elif t is want:
+                            T2.add((c, p, f))
+                    T = T2
                 old = IN.get(b)
                 if old is None:
                     IN[b] = set(T)
@@ -2001,6 +2177,27 @@ class ICModel:
                     old |= T
                     work.append(b)
         self.states = IN
+
+    def edge_states(self, a: int, l) -> Set[Tuple]:
+        """states flowing along the edge (a, label l)"""
+        o, e = self._transfer(a, self.at(a))
+        T = e if l in ("exc", "raise") else o
+        if a in self.cell_tests and l in ("T", "F"):
+            want = (l == "T")
+            T2 = set()
+            for (c, p, f) in T:
+                t = self.cell_test(self.g.node(a).ast, c, self.is_cell_read, self.local_names)
+                if t is None:
+                    T2.add(((want if (c is None and self.is_cell_read(self.g.node(a).ast)) else c), p, f))
+                elif t is want:
+                    T2.add((c, p, f))
+            T = T2
+        return T
+
+    def resumes_later(self, c) -> bool:
+        """with the cell left at c, does the helper re-enter _inlineCallbacks (on every path) when the Deferred fires later?"""
+        effs = self.helper_effect(c)
+        return bool(effs) and all(called for _, called in effs)
 
     def at(self, nid: int) -> Set[Tuple]:
         return self.states.get(nid, set())
